@@ -1814,3 +1814,28 @@ for _cell in ["interval", "triangle", "quadrilateral", "tetrahedron"]:
 
         _it = ("exterior_facet", "interior_facet") if _var == "facet" else ("cell",)
         reg(f"vec_bilinear_{_var}_{_cell}", ("c02" if _var == "facet" else "c01") + " c07 c08 c10 c17 c18" + (" q" if _cell in ("triangle", "interval") else ""), itypes=_it)(_mk)
+
+
+# ---- quadrature elements whose points are not in lexicographic order (degree >= 3 on simplices) ----------
+
+def _qe_form(cell, deg, variant):
+    m = mesh(cell)
+    V = space(m)
+    v = TestFunction(V)
+    x = ufl.SpatialCoordinate(m)
+    qe = basix.ufl.quadrature_element(cell, (), degree=deg)
+    f = ufl.Coefficient(ufl.FunctionSpace(m, qe))
+    g = ufl.Coefficient(V)
+    if variant == "weighted":
+        return f * x[0] * v * dx
+    if variant == "functional":
+        return f * g * x[GD[cell] - 1] * dx
+    return f * v * dx
+
+
+for _cell, _deg in [("triangle", 3), ("triangle", 5), ("tetrahedron", 2), ("interval", 4), ("quadrilateral", 3)]:
+    for _var in ["weighted", "functional"]:
+        def _mk(cell=_cell, deg=_deg, var=_var):
+            return _qe_form(cell, deg, var)
+
+        reg(f"quadrature_element_deg{_deg}_{_var}_{_cell}", "c01 c11 c11md c08" + (" q" if _cell in ("triangle", "tetrahedron") and _var == "weighted" else ""))(_mk)
